@@ -113,7 +113,7 @@ static void part_norm(const std::vector<unsigned>& ns) {
 struct G { double mq, sq, mp, sp, amp; };
 static void put_gauss(std::vector<float>& d, unsigned n, unsigned b, const PhaseSpace& ps, const std::vector<G>& gs, bool add = false) {
     for (unsigned x = 0; x < n; x++) for (unsigned y = 0; y < n; y++) {
-        double v = 0; const double q = ps.q(x), p = ps.p(y);
+        double v = 0; const double q = coord(ps, 0, x), p = coord(ps, 1, y);
         for (auto& g : gs) v += g.amp * std::exp(-0.5 * ((q - g.mq) * (q - g.mq) / (g.sq * g.sq) + (p - g.mp) * (p - g.mp) / (g.sp * g.sp))) / (g.sq * g.sp);
         d[((size_t)b * n + x) * n + y] = (add ? d[((size_t)b * n + x) * n + y] : 0.f) + (float)v;
     }
@@ -169,7 +169,7 @@ static void part_gauss(const std::vector<unsigned>& ns, bool mixtures) {
                     // zeroth moment row by row: each projection of a Gaussian is its marginal, scaled to the bunch's share
                     for (int ax = 0; ax < 2; ax++) {
                         const double m = ax ? g.mp : g.mq, sg = ax ? g.sp : g.sq; double worst = 0, peak = fill[bt] / (std::sqrt(2 * M_PI) * sg);
-                        for (unsigned i = 0; i < n; i++) { const double c = ax ? ps->p(i) : ps->q(i); worst = std::max(worst, std::fabs(ps->getProjection(ax)[bt][i] - peak * std::exp(-0.5 * (c - m) * (c - m) / (sg * sg)))); }
+                        for (unsigned i = 0; i < n; i++) { const double c = ax ? coord(*ps, 1, i) : coord(*ps, 0, i); worst = std::max(worst, std::fabs(ps->getProjection(ax)[bt][i] - peak * std::exp(-0.5 * (c - m) * (c - m) / (sg * sg)))); }
                         R.maxnum("worst_projection_vs_marginal_rel", worst / peak);
                         if (!(worst <= 5e-4 * peak)) { char dd[200]; snprintf(dd, 200, "bunch %u axis %d: projection deviates from the Gaussian marginal by %.3g of its peak", bt, ax, worst / peak); R.violate(std::string("C09/projection/not-the-marginal/axis=") + (ax ? "energy" : "position"), kase, dd); }
                     }
@@ -201,6 +201,40 @@ static void part_gauss(const std::vector<unsigned>& ns, bool mixtures) {
         }
     }
     R.bound_done(std::string("gauss: n x nb x 3 extents x 9 means x 9 widths") + (mixtures ? " x {single, two-component mixture}" : "") + ", every bunch in turn, two variants of the other bunches");
+}
+
+// part=large : large grids (512, 1024 cells) with narrow bunches (2.5 - 6 cells rms) anywhere on the grid, also near its upper end: the moments are the
+// moments of the projections (double-precision reference on the same projections, relative 2e-4 on the widths) and those of the Gaussian
+static void part_large(const std::vector<unsigned>& ns) {
+    for (unsigned n : ns) for (int ipos = 0; ipos < 5; ipos++) for (int iw = 0; iw < 3; iw++) for (int raw = 0; raw < 2; raw++) {
+        std::string kase = mcx::Desc()("part", "large")("n", n)("pos", ipos)("width", iw)("raw", raw).str();
+        if (!R.mine(kase)) continue;
+        if (R.out_of_time()) { R.not_completed = kase; return; }
+        set_size(n, 1);
+        const double d = 12.0 / (n - 1), wcells[3] = {2.5, 4.0, 6.0}, posf[5] = {-0.8, -0.3, 0.1, 0.6, 0.85};
+        G g{6 * posf[ipos], wcells[iw] * d, 6 * posf[4 - ipos], wcells[2 - iw] * d, 1.0};
+        auto probe = mkps(-6, 6, -6, 6, {1.f});
+        std::vector<float> dat((size_t)n * n); put_gauss(dat, n, 0, *probe, {g});
+        if (raw) for (auto& v : dat) v *= 0.37f;
+        auto ps = mkps(-6, 6, -6, 6, {1.f}, dat.data());
+        if (raw) { ps->updateXProjection(); ps->updateYProjection(); ps->integrate(); ps->variance(0); ps->variance(1); } else renorm(*ps);
+        const float got[4] = {ps->getMoment(0, 0)[0], ps->getBunchLength()[0], ps->getMoment(1, 0)[0], ps->getEnergySpread()[0]};
+        R.eval(kase, mcx::fnv(got, 16, mcx::fnvs(kase)), false);
+        // reference moments of the object's own projections, in double precision
+        double ref[4];
+        for (int ax = 0; ax < 2; ax++) { double s0 = 0, s1 = 0, s2 = 0; for (unsigned i = 0; i < n; i++) { const double v = ps->getProjection(ax)[0][i], c = ax ? coord(*ps, 1, i) : coord(*ps, 0, i); s0 += v; s1 += v * c; }
+            const double m = s1 / s0; for (unsigned i = 0; i < n; i++) { const double v = ps->getProjection(ax)[0][i], c = ax ? coord(*ps, 1, i) : coord(*ps, 0, i); s2 += v * (c - m) * (c - m); } ref[2 * ax] = m; ref[2 * ax + 1] = std::sqrt(s2 / s0); }
+        const double want[4] = {g.mq, g.sq, g.mp, g.sp}; const char* nm[4] = {"position", "length", "mean-energy", "energy-spread"};
+        for (int k = 0; k < 4; k++) {
+            const double tolref = (k % 2) ? 2e-4 * ref[k] : 2e-3 * d, tolana = (k % 2) ? 1e-3 * want[k] : 5e-3 * d;
+            R.maxnum("worst_large_grid_moment_vs_projection_reference", std::fabs(got[k] - ref[k]) / tolref);
+            if (!(std::fabs(got[k] - ref[k]) <= tolref) || !(std::fabs(got[k] - want[k]) <= tolana)) {
+                char dd[220]; snprintf(dd, 220, "%s: reported %.9g, moment of the projection %.9g, Gaussian %.9g (cell %.4g)", nm[k], got[k], ref[k], want[k], d);
+                R.violate(std::string("C09/moments/large-grid/") + nm[k], kase, dd);
+            }
+        }
+    }
+    R.bound_done("large: n{512,1024} x 5 positions (lower end ... upper end of the grid) x widths {2.5, 4, 6} cells x {renormalised, raw}; moments vs double-precision moments of the same projections and vs the Gaussian");
 }
 
 static void part_copy(const std::vector<unsigned>& ns) {
@@ -268,9 +302,9 @@ static HRef hist_ref(const PhaseSpace& ps, unsigned n, unsigned nb, const std::v
     for (unsigned b = 0; b < nb; b++) for (unsigned x = 0; x < n; x++) for (unsigned y = 0; y < n; y++) { const double v = d[((size_t)b * n + x) * n + y]; r.px[b * n + x] += v * ws[y]; r.py[b * n + y] += v * ws[x]; }
     for (unsigned b = 0; b < nb; b++) { for (unsigned x = 0; x < n; x++) r.fill[b] += (double)px_real[b * n + x] * ws[x]; r.integral += r.fill[b]; }
     for (unsigned b = 0; b < nb; b++) if (fill_real[b] != 0) {
-        double a = 0, c = 0; for (unsigned i = 0; i < n; i++) { a += (double)px_real[b * n + i] * ps.q(i); c += (double)py_real[b * n + i] * ps.p(i); }
+        double a = 0, c = 0; for (unsigned i = 0; i < n; i++) { a += (double)px_real[b * n + i] * coord(ps, 0, i); c += (double)py_real[b * n + i] * coord(ps, 1, i); }
         r.m0q[b] = a * ps.getDelta(0) / fill_real[b]; r.m0p[b] = c * ps.getDelta(1) / fill_real[b];
-        a = c = 0; for (unsigned i = 0; i < n; i++) { a += (double)px_real[b * n + i] * std::pow(ps.q(i) - r.m0q[b], 2); c += (double)py_real[b * n + i] * std::pow(ps.p(i) - r.m0p[b], 2); }
+        a = c = 0; for (unsigned i = 0; i < n; i++) { a += (double)px_real[b * n + i] * std::pow(coord(ps, 0, i) - r.m0q[b], 2); c += (double)py_real[b * n + i] * std::pow(coord(ps, 1, i) - r.m0p[b], 2); }
         r.m1q[b] = a * ps.getDelta(0) / fill_real[b]; r.m1p[b] = c * ps.getDelta(1) / fill_real[b];
     }
     return r;
@@ -374,6 +408,7 @@ int main(int argc, char** argv) {
     part_norm(D ? std::vector<unsigned>{8, 9, 16, 17, 24, 32, 33} : std::vector<unsigned>{8, 9, 16, 17, 24});
     part_gauss(D ? std::vector<unsigned>{32, 33, 48, 64, 65, 96, 128, 129} : std::vector<unsigned>{32, 33, 48, 64, 65, 96}, T);
     part_copy(T ? std::vector<unsigned>{8, 9, 16, 17, 32, 33} : std::vector<unsigned>{8, 9, 16});
+    part_large(D ? std::vector<unsigned>{512, 1024, 2048} : std::vector<unsigned>{512, 1024});
     part_hist(D ? 6 : 5);
     return R.finish();
 }
